@@ -723,8 +723,99 @@ Theorem plane_init_spec (nz : S -> bool) amp opd mask pix foc tl (P : plane S) :
   pl_amp P = amp /\ pl_opd P = opd /\ pl_mask P = init_mask nz amp mask /\
   plane_slice (pl_mask P) = Ok (pl_slices P) /\ pl_pix P = pix_broadcast pix /\ pl_tilt P = tl /\ pl_focal P = foc.
 Proof.
-  unfold plane_init. destruct (plane_slice (init_mask nz amp mask)) as [sl|e] eqn:E; cbn [rbind]; [|discriminate].
-  intros H. injection H as <-. cbn. repeat split; try reflexivity. exact E.
+  unfold plane_init. destruct mask; try discriminate;
+    (match goal with |- context[plane_slice ?x] => destruct (plane_slice x) as [sl|e] eqn:E end; cbn [rbind]; [|discriminate];
+     intros H; injection H as <-; cbn [pl_amp pl_opd pl_mask pl_slices pl_pix pl_tilt pl_focal]; repeat split; try reflexivity; exact E).
+Qed.
+
+Lemma boundary_slice_err (m : garr bool) e : boundary_slice m = Err e -> e = IndexError.
+Proof. unfold boundary_slice, util_boundary.
+  repeat match goal with |- context[match ?o with Some _ => _ | None => _ end] => destruct o end;
+  intros H; try discriminate; now injection H. Qed.
+Lemma plane_slice_err (mk : pmask) e : plane_slice mk = Err e -> e = IndexError.
+Proof. unfold plane_slice. destruct mk as [b|a|n m l]; [discriminate| |].
+  - destruct (boundary_slice a) eqn:B; cbn [rbind]; [discriminate|]. intros H. injection H as <-. exact (boundary_slice_err _ _ B).
+  - induction l as [|a l IH]; cbn [rmapM]; [discriminate|].
+    destruct (boundary_slice a) eqn:B; cbn [rbind].
+    + destruct (rmapM boundary_slice l); cbn [rbind]; [discriminate|]. exact IH.
+    + intros H. injection H as <-. exact (boundary_slice_err _ _ B). Qed.
+
+(* the constructor's outcome: which keyword combinations and masks are refused, and with which exception *)
+Theorem plane_init_kw_outcome (nz : S -> bool) amplitude alias opd mask pix foc tl :
+  match plane_init_kw nz amplitude alias opd mask pix foc tl with
+  | Ok P => (alias = None /\ pl_amp P = amplitude \/ exists a', alias = Some a' /\ pl_amp P = a') /\
+            mask <> M4 /\ pl_opd P = opd /\ pl_mask P = init_mask nz (pl_amp P) mask /\
+            plane_slice (pl_mask P) = Ok (pl_slices P) /\ pl_pix P = pix_broadcast pix /\ pl_tilt P = tl /\ pl_focal P = foc
+  | Err TypeError =>      (* both `amplitude` and `amp` given *)
+      alias <> None /\ (exists v, amplitude = AmpS v /\ nz (v - k1)%K = true) \/
+      alias <> None /\ (exists A, amplitude = AmpA A /\ nr A * nc A = 1 /\ nz (get A 0 0 - k1)%K = true)
+  | Err ValueError =>     (* `amplitude != 1` has no truth value, or the mask has rank >= 4 *)
+      (alias <> None /\ exists A, amplitude = AmpA A /\ nr A * nc A <> 1) \/ mask = M4
+  | Err IndexError =>     (* some (segment) mask has no set sample: no bounding slice *)
+      mask <> M4 /\ exists a, plane_slice (init_mask nz a mask) = Err IndexError
+  | Err _ => False
+  end.
+Proof.
+  unfold plane_init_kw, amp_kw.
+  assert (Core : forall a, match plane_init nz a opd mask pix foc tl with
+     | Ok P => pl_amp P = a /\ mask <> M4 /\ pl_opd P = opd /\ pl_mask P = init_mask nz a mask /\
+               plane_slice (pl_mask P) = Ok (pl_slices P) /\ pl_pix P = pix_broadcast pix /\ pl_tilt P = tl /\ pl_focal P = foc
+     | Err ValueError => mask = M4
+     | Err IndexError => mask <> M4 /\ plane_slice (init_mask nz a mask) = Err IndexError
+     | Err _ => False end).
+  { intros a. destruct (plane_init nz a opd mask pix foc tl) as [P|e] eqn:E.
+    - destruct (plane_init_spec nz a opd mask pix foc tl P E) as (A1 & A2 & A3 & A4 & A5 & A6 & A7).
+      repeat split; try assumption. intros ->. discriminate.
+    - unfold plane_init in E. destruct mask; try (injection E as <-; reflexivity);
+        (match type of E with context[plane_slice ?x] => destruct (plane_slice x) as [sl|e'] eqn:E2 end; cbn [rbind] in E; [discriminate|];
+         injection E as <-; pose proof (plane_slice_err _ _ E2) as ->; split; [discriminate|reflexivity]). }
+  destruct alias as [a'|].
+  - destruct amplitude as [v|A].
+    + destruct (nz (v - k1)%K) eqn:Ev; cbn [rbind].
+      * left. split; [discriminate|]. now exists v.
+      * specialize (Core a'). destruct (plane_init nz a' opd mask pix foc tl) as [P|e].
+        -- destruct Core as (A1 & Rest). split; [right; now exists a'|]. rewrite A1. exact Rest.
+        -- destruct e; try contradiction; [now right|]. destruct Core as [C1 C2]. split; [exact C1|now exists a'].
+    + destruct (nr A * nc A =? 1) eqn:Es.
+      * destruct (nz (get A 0 0 - k1)%K) eqn:Ev; cbn [rbind].
+        -- right. split; [discriminate|]. exists A. repeat split; [lia|exact Ev].
+        -- specialize (Core a'). destruct (plane_init nz a' opd mask pix foc tl) as [P|e].
+           ++ destruct Core as (A1 & Rest). split; [right; now exists a'|]. rewrite A1. exact Rest.
+           ++ destruct e; try contradiction; [now right|]. destruct Core as [C1 C2]. split; [exact C1|now exists a'].
+      * cbn [rbind]. left. split; [discriminate|]. exists A. split; [reflexivity|lia].
+  - cbn [rbind]. specialize (Core amplitude). destruct (plane_init nz amplitude opd mask pix foc tl) as [P|e].
+    + destruct Core as (A1 & Rest). split; [left; now split|]. rewrite A1. exact Rest.
+    + destruct e; try contradiction; [now right|]. destruct Core as [C1 C2]. split; [exact C1|now exists amplitude].
+Qed.
+
+(* Wavefront(..., tilt=...): exactly two entries, stored as one Tilt with the axes exchanged *)
+Theorem pwf_init_kw_outcome lam pix foc (t : option (list Qc)) :
+  match pwf_init_kw (S := S) lam pix foc t with
+  | Ok w => pw_lam w = lam /\ pw_pix w = pix_broadcast pix /\ pw_shape w = None /\
+            (t = None /\ pw_data w = [mkField (D0 k1) 0 0 []] \/
+             exists rx ry, t = Some [rx; ry] /\ pw_data w = [mkField (D0 k1) 0 0 [TiltAng ry rx]])
+  | Err e => e = ValueError /\ exists l, t = Some l /\ length l <> 2%nat
+  end.
+Proof.
+  unfold pwf_init_kw. destruct t as [[|rx [|ry [|z l]]]|]; cbn;
+    try (split; [reflexivity|eexists; split; [reflexivity|cbn; lia]]).
+  - repeat split. right. now exists rx, ry.
+  - repeat split. now left.
+Qed.
+
+(* Plane.global_mask of pairwise disjoint segments: 1 on their union, 0 elsewhere *)
+Theorem global_mask_disjoint (n m : Z) (l : list (garr bool)) i j : disjoint_masks l ->
+  (forall a, In a l -> inr (pnr a) i && inr (pnc a) j = true) ->
+  global_mask (PM3 n m l) i j = if existsb (fun a => pget a i j) l then 1 else 0.
+Proof.
+  intros H Hr. cbn [global_mask]. induction H as [|a l Ha H IH]; [reflexivity|]. cbn [fold_right existsb].
+  rewrite IH by (intros; apply Hr; now right).
+  destruct (pget a i j) eqn:E; cbn [zofb orb]; [|reflexivity].
+  assert (Z0 : existsb (fun b => pget b i j) l = false).
+  { destruct (existsb (fun b => pget b i j) l) eqn:Ex; [|reflexivity]. exfalso.
+    apply existsb_exists in Ex. destruct Ex as (b & Hb & Eb). rewrite Forall_forall in Ha. specialize (Ha b Hb i j).
+    unfold mask_at in Ha. rewrite (Hr a (or_introl eq_refl)), (Hr b (or_intror Hb)), E, Eb in Ha. discriminate. }
+  rewrite Z0. reflexivity.
 Qed.
 
 (* the stored mask is binary: set exactly where the given array (or, without one, the amplitude) is non-zero;
@@ -786,6 +877,71 @@ Theorem setters_spec (P : plane S) a o m :
   pl_slices (set_opd P o) = pl_slices P /\
   pl_mask (set_mask_inplace P m) = m /\ pl_slices (set_mask_inplace P m) = pl_slices P.
 Proof. repeat split. Qed.
+
+(* ---- planes with a 0-d mask and at least one array attribute: one phasor covering the attribute array ---- *)
+Lemma full_embed (a : arr S) tl r c :
+  embed (mkField (D2 (force a)) 0 0 tl) r c
+  = if inr (nr a) (r + nr a / 2) && inr (nc a) (c + nc a / 2) then get a (r + nr a / 2) (c + nc a / 2) else k0.
+Proof. rewrite embed_force, embed_D2. unfold embedA. replace (r - 0 + nr a / 2) with (r + nr a / 2) by ring.
+  replace (c - 0 + nc a / 2) with (c + nc a / 2) by ring. reflexivity. Qed.
+
+Lemma smask_phasor (P : plane S) lam b n m : smask_plane P b n m ->
+  exists p, plane_phasors P lam = Ok [p] /\ fsized p /\
+    forall r c, embed p r c = smask_transmission P b lam n m r c.
+Proof.
+  intros (Em & Es & Ea & Hn & Hm & Hc). unfold plane_phasors. rewrite Em, Es. cbn [phasors_from]. unfold phasor.
+  unfold attr_shape in Ea. unfold smask_transmission.
+  destruct (pl_amp P) as [v|A] eqn:EA; destruct (pl_opd P) as [q|o] eqn:EO; try discriminate;
+    injection Ea as En Emm; cbn [amp_data opd_data rbind dmul slice_offset dforce nr nc].
+  - (* scalar amplitude, array opd *)
+    eexists; split; [reflexivity|]. split; [unfold fsized; cbn [fd]; rewrite force_nr, force_nc; cbn [nr nc]; lia|].
+    intros r c. rewrite full_embed. cbn [nr nc get amp_at opd_at]. subst n m. destr_if; [ring|reflexivity].
+  - (* array amplitude, scalar opd *)
+    eexists; split; [reflexivity|]. split; [unfold fsized; cbn [fd]; rewrite force_nr, force_nc; cbn [nr nc]; lia|].
+    intros r c. rewrite full_embed. cbn [nr nc get amp_at opd_at]. subst n m. destr_if; [ring|reflexivity].
+  - (* both arrays, of one shape *)
+    destruct Hc as [C1 C2]. rewrite <- C1, <- C2, !Z.eqb_refl. cbn [andb rbind dmul slice_offset dforce nr nc].
+    eexists; split; [reflexivity|]. split; [unfold fsized; cbn [fd]; rewrite force_nr, force_nc; cbn [nr nc]; lia|].
+    intros r c. rewrite full_embed. cbn [nr nc get amp_at opd_at]. rewrite C1, C2. subst n m. destr_if; [ring|reflexivity].
+Qed.
+
+(* T07c for 0-d masks with array amplitude and/or OPD: the plane's shape is (), so the wavefront keeps its shape *)
+Theorem plane_multiply_scalar_mask (P : plane S) (w : pwf S) b n m px : smask_plane P b n m ->
+  (forall f, In f (pw_data w) -> fvalid f) -> mul_pixelscale (pl_pix P) (pw_pix w) = Ok px ->
+  exists w', plane_multiply P w = Ok w' /\
+    pw_lam w' = pw_lam w /\ pw_pix w' = px /\ pw_shape w' = pw_shape w /\
+    pw_focal w' = (match pl_focal P with Some f => f | None => focal_truthy (pw_focal w) end) /\
+    (forall f, In f (pw_data w') -> fsized f) /\
+    forall r c, embed_sum (pw_data w') r c = (ec_sum (pw_data w) r c * smask_transmission P b (pw_lam w) n m r c)%K.
+Proof.
+  intros Hs Hf Hpx. destruct (smask_phasor P (pw_lam w) b n m Hs) as (p & Ep & Sp & Gp).
+  unfold plane_multiply. rewrite Hpx. cbn [rbind].
+  assert (Hshape : plane_shape (pl_mask P) = Sh0) by (destruct Hs as (-> & _); reflexivity). rewrite Hshape.
+  destruct (pw_data w) as [|f0 fs] eqn:Ed.
+  - cbn [rbind]. eexists; split; [reflexivity|]. cbn [pw_lam pw_pix pw_shape pw_focal pw_data].
+    repeat split; try assumption; [intros f []|]. intros r c. unfold mul_fields. rewrite ec_sum_lsum. cbn [flat_map map].
+    rewrite embed_sum_nil, lsum_nil. ring.
+  - rewrite Ep. cbn [rbind]. eexists; split; [reflexivity|]. cbn [pw_lam pw_pix pw_shape pw_focal pw_data].
+    assert (Hp : forall q, In q [p] -> fsized q) by (intros q [<-|[]]; exact Sp).
+    repeat split; try assumption; [now apply mul_fields_sized|].
+    intros r c. rewrite mul_fields_pointwise by assumption. rewrite ec_sum_lsum.
+    replace (lsum (map (fun p0 => embed p0 r c) [p])) with (embed p r c) by (cbn [map]; rewrite lsum_cons; unfold FieldP.lsum; cbn; ring).
+    now rewrite Gp.
+Qed.
+
+(* Plane.shape and Plane.size read off the stored mask: () and 1 for a 0-d mask, the array's shape and 1 for a 2-d
+   mask, the trailing two dimensions and the number of layers for a cube *)
+Theorem shape_size_spec (nz : S -> bool) amp :
+  (forall a, plane_dims (init_mask nz amp (M2 a)) = Some (nr a, nc a) /\ psize (init_mask nz amp (M2 a)) = 1%nat) /\
+  (forall n m l, plane_dims (init_mask nz amp (M3 n m l)) = Some (n, m) /\ psize (init_mask nz amp (M3 n m l)) = length l) /\
+  (forall v, plane_dims (init_mask nz amp (MS v)) = None /\ psize (init_mask nz amp (MS v)) = 1%nat) /\
+  (match amp with
+   | AmpA A => plane_dims (init_mask nz amp MNone) = Some (nr A, nc A)
+   | AmpS v => plane_dims (init_mask nz amp MNone) = None end) /\ psize (init_mask nz amp MNone) = 1%nat.
+Proof.
+  repeat split; try reflexivity; try (destruct amp; reflexivity).
+  cbn [init_mask psize]. apply map_length.
+Qed.
 End PlaneSpec.
 
 (* ================================================================== equal plane functions, equal views *)
